@@ -89,6 +89,7 @@ func (f *Frame) call(in ssa.Instruction, cc *ssa.CallCommon, v ssa.Value) {
 			args = append(args, f.val(a))
 		}
 		f.safety("nil", fmt.Sprintf("(not (= (i_tag %s) 0))", recv), in)
+		f.callPreObls(cc.Method.Name(), true, append([]ssa.Value{cc.Value}, cc.Args...), append([]string{recv}, args...), in, site)
 		outs := f.invoke(cc, recv, args, in, site)
 		f.finishCall(outs, v, cc.Signature())
 		return
@@ -139,6 +140,7 @@ func (f *Frame) call(in ssa.Instruction, cc *ssa.CallCommon, v ssa.Value) {
 	for _, a := range cc.Args {
 		args = append(args, f.argVal(a, callee))
 	}
+	f.callPreObls(callee.Name(), callee.Signature.Recv() != nil, cc.Args, args, in, site)
 	out := f.callStatic(callee, args, cc.Args, f.reach, f.st, in, site)
 	f.finishCall([]callOut{out}, v, cc.Signature())
 }
@@ -727,4 +729,42 @@ func pureExternal(fn *ssa.Function) bool {
 		}
 	}
 	return true
+}
+
+// callPreObls: obligations of the unit's callpre clauses at a call of the named function or (interface) method.
+// In the clause the receiver is `recv`, the other arguments arg0, arg1, ...; the unit's parameters and old() are
+// available.
+func (f *Frame) callPreObls(name string, hasRecv bool, argVals []ssa.Value, args []string, in ssa.Instruction, site string) {
+	e := f.e
+	if f.depth != 0 {
+		return
+	}
+	for _, cp := range e.unit.CallPres {
+		if cp.Raw != name {
+			continue
+		}
+		vars := map[string]CVal{}
+		for k, pv := range f.params {
+			vars[k] = pv
+		}
+		k := 0
+		for i, a := range argVals {
+			if i == 0 && hasRecv {
+				vars["recv"] = CVal{S: args[i], T: a.Type()}
+				continue
+			}
+			vars[fmt.Sprintf("arg%d", k)] = CVal{S: args[i], T: a.Type()}
+			k++
+		}
+		errs := []string{}
+		env := &CEnv{e: e, vars: vars, st: f.st, old: f.entrySt, pkg: f.fn.Pkg.Pkg, frame: f, at: in.Block(), lets: e.unit.Lets, errs: &errs}
+		goal := env.evalBool(cp.Expr)
+		f.reportEnvErrs(env, cp)
+		lab := cp.Label
+		if lab == "" {
+			lab = "c"
+		}
+		e.callOrd["callpre."+cp.Raw+"."+lab]++
+		e.oblige("pre", fmt.Sprintf("%s#pre[call.%s#%d.%s]", e.unit.Key(), cp.Raw, e.callOrd["callpre."+cp.Raw+"."+lab], lab), lab, f.reach, goal, site)
+	}
 }
